@@ -124,6 +124,7 @@ Fixpoint drop_stale (c : Z) (l : list Z) : list Z :=
   end.
 
 Definition resume_cond (s : st) : bool :=
+  resume_open (eof s) &&
   resume_bytes (size s) (low s) (match buf s with [] => true | _ => false end) &&
   match splits s with None => true | Some l => resume_chunks (len l) (lowc s) end.
 
